@@ -12,7 +12,7 @@ pub fn run(ctx: &Ctx) -> Outcome {
     // the write half and the connection on different threads (a multi-threaded runtime)
     {
         use crate::solo::threads::*;
-        let tc = ThreadsCfg { base_depth: ctx.tier.pick(2, 3), preemption_bound: ctx.tier.pick(Some(2), None), max_runs_per_case: ctx.tier.pick(3_000, 200_000), with_suffix: false, triples: false, doubles: true };
+        let tc = ThreadsCfg { base_depth: ctx.tier.pick(2, 3), preemption_bound: ctx.tier.pick(Some(2), Some(3)), max_runs_per_case: ctx.tier.pick(3_000, 200_000), with_suffix: false, triples: false, doubles: true, budget_share: 0.3 };
         explore_threads(ctx, &tx_flow(ctx.tier, 8, 8, 0), &tc, &mut out);
         explore_threads(ctx, &tx_flow(ctx.tier, 8, 32, 0), &tc, &mut out);
         let tc1 = ThreadsCfg { base_depth: ctx.tier.pick(1, 2), ..tc };
